@@ -230,6 +230,35 @@ def call_origin(suffix):
     return lambda o: o.startswith("call:") and o.split("@")[0].endswith(suffix)
 
 
+_DEEP = {}
+
+
+def call_origin_deep(F, suffix, depth=2):
+    """like call_origin, but a call to a crate function or closure also counts when the value *it* returns originates from a call to
+    `suffix` (one or two levels): `let price = |o| min_ada_for_output(o, ..); price(&out)?` is still a min-ADA computation"""
+    import fieldflow as _ff
+
+    def returns(fid, d):
+        k = (fid, suffix, d)
+        if k in _DEEP:
+            return _DEEP[k]
+        _DEEP[k] = False
+        if fid in F.fns:
+            o = _ff.Origins(F, fid).of_place("_0")
+            r = any(pred(x, d - 1) for x in o)
+            _DEEP[k] = r
+        return _DEEP[k]
+
+    def pred(o, d=depth):
+        if not o.startswith("call:"):
+            return False
+        nm = o.split("@")[0][5:]
+        if nm.endswith(suffix):
+            return True
+        return d > 0 and nm in F.fns and returns(nm, d)
+    return pred
+
+
 def field_origin(adt_suffix, field):
     return lambda o: o.startswith("field:") and o.endswith("%s.%s" % (adt_suffix, field))
 
